@@ -8,7 +8,8 @@
    casts them to; `hashed_fields` = ID, PrevAlh, Ts, Version, metadata bytes (version 1), NEntries,
    Eh, BlTxID, BlRoot.  Sessions against an arbitrary server: Proofs/Session.v. *)
 From V Require Import Proofs.History Proofs.Session Proofs.Binding Proofs.Linear
-  Proofs.Sound Proofs.Fork Proofs.HistoryB Proofs.Refuted Proofs.Gen Proofs.Complete Proofs.CompleteFull Proofs.Unique Merkle.Sound Merkle.Verify.
+  Proofs.Sound Proofs.Fork Proofs.HistoryB Proofs.Refuted Proofs.Gen Proofs.Complete Proofs.CompleteFull Proofs.Unique Proofs.Transport Proofs.SessionProof
+  Merkle.Sound Merkle.Verify Merkle.VerifyFixed.
 
 (* Alh commits to every hashed header field: two valid headers with the same Alh agree on all of
    them (so a header altered in any of these fields no longer matches a trusted Alh). *)
@@ -242,11 +243,7 @@ Theorem C01_dual_proof_same_target_unique :
 Proof. exact dual_proof_same_target_unique. Qed.
 Print Assumptions C01_dual_proof_same_target_unique.
 
-(* The same for VerifyDualProofV2. The FULL session statement (pairs
-   accepted under DIFFERENT states of one session agree) additionally needs the transport of
-   inclusion facts across a state advance, i.e. a consistency verifier that is exact in the old
-   size (fact (T) of Proofs/Session.v; C08 known finding) — and is refuted for VerifyDualProof on
-   lagging headers (Proofs/Refuted.v). *)
+(* The same for VerifyDualProofV2. *)
 Theorem C01_dual_proof_v2_same_target_unique :
   forall (H : bytes -> bytes), (forall x, length (H x) = 32%nat) ->
   forall (p1 p2 : dual_proof_v2) (src tgt : N) (a b talh : bytes) (t1 t2 : txhdr),
@@ -257,6 +254,49 @@ Theorem C01_dual_proof_v2_same_target_unique :
     a = b \/ Collision H.
 Proof. exact dual_proof_v2_same_target_unique. Qed.
 Print Assumptions C01_dual_proof_v2_same_target_unique.
+
+(* FACT (T), transport across a state advance, against an ARBITRARY server: R and R' are any 32-byte
+   values (no genuine tree anywhere). If ahtree.VerifyConsistency accepts (m, R) -> (n, R') and
+   ahtree.VerifyInclusion accepts `leaf` at position i of (m, R), then some inclusion proof of the
+   same leaf at the same position is accepted against (n, R') — or a collision is exhibited. (The
+   proof lengths are pinned since /repo commits c59ab5b and 05f2785; the new path is assembled from
+   the terms of the two proofs.) *)
+Theorem C01_consistency_transport :
+  forall (H : bytes -> bytes), (forall x, length (H x) = 32%nat) ->
+  forall (cproof t : list bytes) (i m n : N) (leaf R R' : bytes),
+    len32 cproof -> len32 t -> length leaf = 32%nat ->
+    verify_consistency_fixed H cproof m n R R' = Ok true ->
+    verify_inclusion H t i m leaf R = true ->
+    (exists t', len32 t' /\ verify_inclusion H t' i n leaf R' = true) \/ Collision H.
+Proof. exact consistency_transport. Qed.
+Print Assumptions C01_consistency_transport.
+
+(* FULL SESSION CONSISTENCY against an arbitrary server, VerifyDualProofV2: along ONE session of a
+   verifying client (Proofs/Session.v: every call accepted, the client's trusted pair is the source or
+   the target of the call, the new state is the call's target; any number of state advances and
+   verified reads, in any order) every two accepted (transaction id, Alh) pairs with the same id
+   carry the same Alh — hence by C01_alh_binding the same header, entries digest and linking — or a
+   collision is exhibited. No forked, re-ordered or rewritten history is ever accepted within a
+   session. good_v2 = the Go types: headers within their field ranges, 32-byte proof terms. *)
+Theorem C01_session_consistency_v2 :
+  forall (H : bytes -> bytes), (forall x, length (H x) = 32%nat) ->
+  forall (st : N * bytes) (cs : list call),
+    session (verify_dual_proof_v2_call H) st cs -> Forall good_v2 cs ->
+    forall id a b, In (id, a) (st :: pairs cs) -> In (id, b) (st :: pairs cs) -> a = b \/ Collision H.
+Proof. exact session_consistency_v2. Qed.
+Print Assumptions C01_session_consistency_v2.
+
+(* The same for VerifyDualProof when every header carried by the session's proofs has
+   BlTxID = ID - 1 (good_v1; what every current server emits). For headers whose binary linking
+   lags (source.BlTxID < target.BlTxID < sourceTxID) the statement is REFUTED: Proofs/Refuted.v
+   session_consistency_v1_refuted, known finding. *)
+Theorem C01_session_consistency_v1_nonlagging :
+  forall (H : bytes -> bytes), (forall x, length (H x) = 32%nat) ->
+  forall (st : N * bytes) (cs : list call),
+    session (verify_dual_proof H) st cs -> Forall good_v1 cs ->
+    forall id a b, In (id, a) (st :: pairs cs) -> In (id, b) (st :: pairs cs) -> a = b \/ Collision H.
+Proof. exact session_consistency_v1_nonlagging. Qed.
+Print Assumptions C01_session_consistency_v1_nonlagging.
 
 (* NEGATIVE RESULTS about the code as it stands are in Proofs/Refuted.v (witnesses computed with the
    executable SHA-256, whose primitive-integer operations Print Assumptions would list; the file is
